@@ -29,6 +29,9 @@ class World(object):
 def build_world(rng, root, odd):
     """Compile typelibs with chosen header (namespace, version, deps) and lay them out in directories."""
     w = World()
+    # numerically equal, differently spelled versions also in worlds that are otherwise plain: there the executable
+    # statement of the property is never silent, so an election that prefers the wrong directory is reported with its history
+    respell = odd or rng.random() < 0.5
     girdir = os.path.join(root, 'gir')
     os.makedirs(girdir)
     # header variants: (ns, ver) -> deps   (deps only on earlier namespaces: a DAG)
@@ -86,7 +89,7 @@ def build_world(rng, root, odd):
                 name, src = '%s-%s.typelib' % (ns, ver), None             # not a typelib
             else:
                 continue
-            if odd and src == (ns, ver) and name == '%s-%s.typelib' % (ns, ver) and rng.random() < 0.25:
+            if respell and src == (ns, ver) and name == '%s-%s.typelib' % (ns, ver) and rng.random() < 0.25:
                 # a numerically equal, differently spelled version ("2.0" / "2.00"): competes with the plain spelling elsewhere
                 a, b = ver.split('.')
                 name = '%s-%s.typelib' % (ns, rng.choice([a + '.0' + b, '0' + a + '.' + b, a + '.' + b + '0' if b == '0' else a + '.00' + b]))
